@@ -12,8 +12,8 @@ func (m *Machine) clockRead() *Term {
 	if m.out == nil { // package initialisation
 		return m.tb.Const(64, 1)
 	}
-	v := m.newVar("clock", BV(64))
-	m.tape = append(m.tape, TapeEntry{Name: "clock", Kind: "int", T: v, W: 64})
+	v := m.newEnvVar("clock", BV(64))
+	m.envVars = append(m.envVars, v)
 	prev, _ := m.side["clock.prev"].(*Term)
 	if prev == nil {
 		prev = m.tb.Const(64, 1)
